@@ -423,6 +423,7 @@ class Function:
             hass_args["blocking"] = True
         elif (
             "return_response" not in hass_args
+            and cls.hass.services.has_service(domain, service)
             and cls.hass.services.supports_response(domain, service) == SupportsResponse.ONLY
         ):
             hass_args["return_response"] = True
